@@ -327,6 +327,45 @@ def run_parallel(binary, lines, workers=None, timeout=3600):
     return res
 
 
+def _run_chunk_guarded(binary, lines, timeout):
+    """run one chunk; on timeout bisect to isolate the hanging case(s) (marked HANG)"""
+    p = subprocess.Popen([binary], stdin=subprocess.PIPE, stdout=subprocess.PIPE, stderr=subprocess.PIPE)
+    try:
+        out, err = p.communicate(("\n".join(lines) + "\n").encode(), timeout=timeout)
+        res = {}
+        got = 0
+        for line in out.decode("utf-8", "replace").split("\n"):
+            if line:
+                f = line.split("\t")
+                res[f[0]] = f[1:]
+                got += 1
+        if got < len(lines):
+            dead = lines[got].split("\t", 1)[0]
+            res[dead] = ["ABORT", f"exit={p.returncode}", err.decode("utf-8", "replace")[-300:].replace("\n", " ").replace("\t", " ")]
+            res.update(_run_chunk_guarded(binary, lines[got + 1:], timeout) if lines[got + 1:] else {})
+        return res
+    except subprocess.TimeoutExpired:
+        p.kill()
+        p.communicate()
+        if len(lines) == 1:
+            return {lines[0].split("\t", 1)[0]: ["HANG"]}
+        h = len(lines) // 2
+        res = _run_chunk_guarded(binary, lines[:h], timeout)
+        res.update(_run_chunk_guarded(binary, lines[h:], timeout))
+        return res
+
+
+def run_guarded(binary, lines, chunk=250, timeout=40, workers=None):
+    """like run_parallel, but a hanging case is isolated and reported as HANG instead of stalling the run"""
+    import concurrent.futures as cf
+    chunks = [lines[i:i + chunk] for i in range(0, len(lines), chunk)]
+    res = {}
+    with cf.ThreadPoolExecutor(max_workers=workers or NCPU) as ex:
+        for r in ex.map(lambda c: _run_chunk_guarded(binary, c, timeout), chunks):
+            res.update(r)
+    return res
+
+
 def run_impl(lines, **kw):
     return run_parallel(AZH, lines, **kw)
 
